@@ -225,13 +225,222 @@ def corrupt(t, what):
         t["cells"][1]["fi"].append(t["cells"][0]["fi"].pop())
 
 
+# ------------------------------------------------------------------------------ surfaces
+WATER = {"els": [8, 1, 1], "pos": [[1, 1, 11], [1, 75, -47], [1, -75, -47]]}      # 0.01 A, odd integers
+ELEMENTS = [1, 6, 7, 8, 9, 16, 17]
+ISO = {"rho": 0.002, "weight": 0.5}
+WRAPPERS = ("Molecule.promolecule_density_isosurface", "Crystal.promolecule_density_isosurfaces",
+            "Crystal.hirshfeld_surfaces", "Crystal.stockholder_weight_isosurfaces")
+
+
+def synth_molecule(seed, natoms):
+    """A bonded cluster on the odd-integer 0.01 A lattice: every new atom 1.0-1.5 A from an earlier
+    one and >= 0.95 A from all others."""
+    rng = random.Random(seed)
+    pos = [[1, 1, 1]]
+    els = [rng.choice(ELEMENTS[1:])]
+    while len(pos) < natoms:
+        base = rng.choice(pos)
+        d = [rng.randint(-150, 150) // 2 * 2 for _ in range(3)]
+        r2 = sum(x * x for x in d)
+        if not (100 ** 2 <= r2 <= 150 ** 2):
+            continue
+        cand = [base[a] + d[a] for a in range(3)]
+        if all(sum((cand[a] - q[a]) ** 2 for a in range(3)) >= 95 ** 2 for q in pos):
+            pos.append(cand)
+            els.append(rng.choice(ELEMENTS))
+    return {"els": els, "pos": pos}
+
+
+def dense_environment(mol, seed):
+    """Copies of the molecule on a lattice around it (even translations keep coordinates odd)."""
+    rng = random.Random(seed)
+    ext = [max(p[a] for p in mol["pos"]) - min(p[a] for p in mol["pos"]) for a in range(3)]
+    T = [(ext[a] + rng.randint(300, 360)) // 2 * 2 for a in range(3)]
+    els, pos = [], []
+    for i in range(-2, 3):
+        for j in range(-2, 3):
+            for k in range(-2, 3):
+                if (i, j, k) == (0, 0, 0):
+                    continue
+                for e, p in zip(mol["els"], mol["pos"]):
+                    els.append(e)
+                    pos.append([p[0] + i * T[0], p[1] + j * T[1], p[2] + k * T[2]])
+    return {"els": els, "pos": pos, "T": T}
+
+
+def _boundary_max(field, bb, sep):
+    """Largest field value on the six faces of the sampling grid the wrapper builds."""
+    import numpy as np
+    l, u = bb
+    g = [np.arange(l[a], u[a], sep, dtype=np.float32) for a in range(3)]
+    best = 0.0
+    for a in range(3):
+        o = [b for b in range(3) if b != a]
+        A, B = np.meshgrid(g[o[0]], g[o[1]], indexing="ij")
+        for end in (g[a][0], g[a][-1]):
+            pts = np.empty((A.size, 3), dtype=np.float32)
+            pts[:, a] = end
+            pts[:, o[0]] = A.ravel()
+            pts[:, o[1]] = B.ravel()
+            best = max(best, float(np.max(field(pts))))
+    return best
+
+
+def _odd(x):
+    return 2 * int(math.floor(float(x) * 50.0)) + 1
+
+
+def surf_trace(api, kind, sep, verts, faces, exc, own, nbr, bb, iso, bmax, res, recipe, part):
+    """Quantise one surface to the 0.01 A integer lattice (vertices even, atoms odd)."""
+    origin = [2 * int(math.floor(float(bb[0][a]) * 50.0)) for a in range(3)]
+    V, off = [], False
+    for v in verts:
+        row = []
+        for a in range(3):
+            x = float(v[a])
+            if not math.isfinite(x) or abs(x) > 5000.0:
+                off = True
+                row.append(0)
+            else:
+                row.append(2 * int(round(x * 50.0)) - origin[a])
+        V.append(row)
+    scale = 2.0 ** 24 / iso
+    t = {"kind": "surf", "api": api, "field": kind, "sep": int(round(sep * 100)), "exc": exc, "offgrid": off,
+         "nv": len(V), "nf": len(faces), "V": V, "F": [[int(a) + 1 for a in f] for f in faces],
+         "own": [[p[a] - origin[a] for a in range(3)] for p in own],
+         "nbr": [[p[a] - origin[a] for a in range(3)] for p in nbr],
+         "box": {"lo": [int(math.floor(float(bb[0][a]) * 100.0)) - 2 - origin[a] for a in range(3)],
+                 "hi": [int(math.ceil(float(bb[1][a]) * 100.0)) + 2 - origin[a] for a in range(3)]},
+         "iso": int(round(iso * scale)), "bmax": min(LIM, int(round(max(bmax, 0.0) * scale))),
+         "res": min(LIM, int(round(res * scale))),
+         "meta": {"recipe": recipe, "source": recipe["src"], "part": part,
+                  "impl_call": "%s(separation=%s) on %s" % (api, sep, recipe["src"]),
+                  "nontrivial": len(faces) > 0}}
+    return t
+
+
+def drive_surface(recipe):
+    """All traces of one (api, system): one "surf" trace per separation and mesh, one "trend" trace
+    per mesh.  Returns {"__multi__": [...]}."""
+    import numpy as np
+    from chmpy import PromoleculeDensity, StockholderWeight
+    api = recipe["api"]
+    seps = recipe["seps"]
+    kind = "weight" if ("stockholder" in api or "hirshfeld" in api) else "rho"
+    iso = ISO[kind]
+    systems = []          # (own_els, own_pos(float), own_int, nbr_els, nbr_pos(float), nbr_int)
+    crystal = None
+    if recipe["src"].startswith("cif:") or recipe["src"].startswith("crystal:"):
+        from chmpy.crystal import Crystal, UnitCell, SpaceGroup, AsymmetricUnit
+        if recipe["src"].startswith("cif:"):
+            crystal = Crystal.load(os.path.join(REPO, "src/chmpy/tests/test_files", recipe["src"][4:]))
+        else:
+            mol = recipe["mol"]
+            cell = recipe["cell"]
+            uc = UnitCell.from_lengths_and_angles([c / 100.0 for c in cell], [90.0, 90.0, 90.0], unit="degrees")
+            from chmpy.core.element import Element
+            frac = np.array(mol["pos"], dtype=float) / np.array(cell, dtype=float)
+            asym = AsymmetricUnit([Element.from_atomic_number(z) for z in mol["els"]], frac)
+            crystal = Crystal(uc, SpaceGroup(1), asym)
+        for (m, n_e, n_p) in crystal.molecule_environments(radius=12.0):
+            systems.append((np.array(m.atomic_numbers), np.array(m.positions, dtype=float),
+                            [[_odd(x) for x in p] for p in m.positions],
+                            np.array(n_e), np.array(n_p, dtype=float), [[_odd(x) for x in p] for p in n_p]))
+    else:
+        mol = recipe["mol"]
+        env = recipe.get("env") or {"els": [], "pos": []}
+        systems.append((np.array(mol["els"]), np.array(mol["pos"], dtype=float) / 100.0, mol["pos"],
+                        np.array(env["els"]), np.array(env["pos"], dtype=float).reshape(-1, 3) / 100.0, env["pos"]))
+    fields, bbs = [], []
+    for (oe, op, _oi, ne, npos, _ni) in systems:
+        if kind == "rho":
+            d = PromoleculeDensity((oe, op))
+            fields.append(d.rho)
+            bbs.append(d.bb())
+        else:
+            s = StockholderWeight.from_arrays(oe, op, ne, npos)
+            fields.append(lambda pts, s=s: s.weights(np.asarray(pts, dtype=np.float32)))
+            bbs.append(s.bb())
+    out = []
+    residuals = [[] for _ in systems]
+    excs = [""] * len(systems)
+    for sep in seps:
+        sepf = sep / 100.0
+        meshes, exc = [], ""
+        try:
+            if api == "surface.promolecule_density_isosurface":
+                from chmpy.surface import promolecule_density_isosurface
+                iso_m = promolecule_density_isosurface(PromoleculeDensity((systems[0][0], systems[0][1])),
+                                                       isovalue=iso, sep=sepf)
+                meshes = [(iso_m.vertices, iso_m.faces)]
+            elif api == "surface.stockholder_weight_isosurface":
+                from chmpy.surface import stockholder_weight_isosurface
+                s0 = systems[0]
+                iso_m = stockholder_weight_isosurface(StockholderWeight.from_arrays(s0[0], s0[1], s0[3], s0[4]),
+                                                      isovalue=iso, sep=sepf)
+                meshes = [(iso_m.vertices, iso_m.faces)]
+            elif api == "Molecule.promolecule_density_isosurface":
+                from chmpy import Molecule
+                m = Molecule.from_arrays(systems[0][0], systems[0][1])
+                tm = m.promolecule_density_isosurface(separation=sepf, isovalue=iso)
+                meshes = [(tm.vertices, tm.faces)]
+            elif api == "Crystal.promolecule_density_isosurfaces":
+                meshes = [(tm.vertices, tm.faces) for tm in
+                          crystal.promolecule_density_isosurfaces(separation=sepf, isovalue=iso)]
+            elif api == "Crystal.hirshfeld_surfaces":
+                meshes = [(tm.vertices, tm.faces) for tm in
+                          crystal.hirshfeld_surfaces(separation=sepf, isovalue=iso)]
+            elif api == "Crystal.stockholder_weight_isosurfaces":
+                meshes = [(tm.vertices, tm.faces) for tm in
+                          crystal.stockholder_weight_isosurfaces(separation=sepf, isovalue=iso)]
+            else:
+                raise ValueError(api)
+            if len(meshes) != len(systems):
+                exc = "MeshCountMismatch"
+        except Exception as e:            # an exception of the implementation is an observation
+            exc = type(e).__name__
+        for i, sysm in enumerate(systems):
+            bmax = _boundary_max(fields[i], bbs[i], sepf)
+            if exc:
+                verts, faces, res = [], [], 0.0
+                excs[i] = excs[i] or exc
+            else:
+                verts = np.asarray(meshes[i][0], dtype=float)
+                faces = np.asarray(meshes[i][1])
+                vals = np.asarray(fields[i](verts.astype(np.float32)), dtype=float)
+                res = float(np.sqrt(np.mean((vals - iso) ** 2))) if len(vals) else 0.0
+            own_int, nbr_int = sysm[2], (sysm[5] if kind == "weight" else [])
+            t = surf_trace(api, kind, sepf, verts, faces, exc, own_int, nbr_int, bbs[i], iso, bmax, res,
+                           recipe, {"sep": sep, "mesh": i})
+            residuals[i].append(t["res"])
+            out.append(t)
+    for i in range(len(systems)):
+        bm = max(t["bmax"] for t in out if t["meta"]["part"]["mesh"] == i)
+        out.append({"kind": "trend", "api": api, "field": kind, "exc": excs[i], "seps": list(seps),
+                    "res": residuals[i], "iso": out[0]["iso"], "bmax": bm,
+                    "meta": {"recipe": recipe, "source": recipe["src"], "part": {"trend": i},
+                             "impl_call": "%s(separation=s) for s in %s on %s" % (api, [s / 100.0 for s in seps], recipe["src"]),
+                             "nontrivial": True}})
+    return {"__multi__": out, "meta": {"recipe": recipe}}
+
+
 def drive(recipe):
     kind = recipe.get("kind", "mc")
     if kind == "mc":
         return drive_mc(recipe)
     if kind == "sphere":
         return drive_sphere(recipe)
+    if kind == "surface":
+        return drive_surface(recipe)
     raise ValueError(kind)
+
+
+def flatten(results):
+    out = []
+    for r in results:
+        out.extend(r["__multi__"]) if "__multi__" in r else out.append(r)
+    return out
 
 
 # ------------------------------------------------------------------------------ recipes
@@ -255,19 +464,132 @@ def cube_recipes(ctx):
     return out
 
 
+def synth_crystal(seed, natoms):
+    """Orthorhombic P1 cell holding one synthetic molecule with 3.4-4 A of room per axis."""
+    rng = random.Random(seed)
+    mol = synth_molecule(seed, natoms)
+    lo = [min(p[a] for p in mol["pos"]) for a in range(3)]
+    hi = [max(p[a] for p in mol["pos"]) for a in range(3)]
+    cell = [hi[a] - lo[a] + rng.randint(340, 400) for a in range(3)]
+    pos = [[p[a] - lo[a] + 100 for a in range(3)] for p in mol["pos"]]
+    return {"els": mol["els"], "pos": pos}, cell
+
+
+def surface_recipes(ctx):
+    seps = ctx.pick([100, 50, 30], [100, 50, 30, 20])
+    nsyn = ctx.pick(3, 8)
+    mols = [("water", WATER)]
+    for i in range(nsyn):
+        seed = ctx.seed * 1009 + 100 + i
+        mols.append(("synthetic-molecule(seed=%d)" % seed, synth_molecule(seed, 3 + (i * 5 + ctx.seed) % 6)))
+    out = []
+    for name, m in mols:
+        for api in ("surface.promolecule_density_isosurface", "Molecule.promolecule_density_isosurface"):
+            out.append({"kind": "surface", "api": api, "src": name, "mol": m, "seps": seps})
+        out.append({"kind": "surface", "api": "surface.stockholder_weight_isosurface", "src": name + " in a 5x5x5 lattice of copies",
+                    "mol": m, "env": dense_environment(m, ctx.seed + 7), "seps": seps})
+    for api in ("Crystal.hirshfeld_surfaces", "Crystal.promolecule_density_isosurfaces"):
+        out.append({"kind": "surface", "api": api, "src": "cif:acetic_acid.cif", "seps": seps})
+    for i in range(ctx.pick(1, 3)):
+        seed = ctx.seed * 31 + 500 + i
+        mol, cell = synth_crystal(seed, 4 + i)
+        for api in ("Crystal.hirshfeld_surfaces",) + (() if ctx.quick else ("Crystal.stockholder_weight_isosurfaces",
+                                                                            "Crystal.promolecule_density_isosurfaces")):
+            out.append({"kind": "surface", "api": api, "src": "crystal:P1 synthetic(seed=%d)" % seed, "mol": mol,
+                        "cell": cell, "seps": seps})
+    return out
+
+
+def sphere_recipes(ctx):
+    rng = random.Random(ctx.seed * 17 + 3)
+    radii = ctx.pick([3, 4, 6, 8], [3, 4, 5, 6, 8, 10, 12])
+    items = [{"R": R, "pad": 2, "sp": [rng.randint(1, 3) for _ in range(3)],
+              "gd": rng.choice(["descent", "ascent"])} for R in radii]
+    fam = [{"kind": "sphere", "items": items}]
+    single = [{"kind": "mc", "gen": "sphere", "R": it["R"], "pad": it["pad"], "sp": it["sp"], "gd": it["gd"]}
+              for it in items]
+    return fam, single
+
+
+MC_MODELS = [            # (N1,N2,N3, S1,S2,S3, VMax, K, PadVal), label, tiers
+    ((4, 4, 4, 1, 2, 3, 1, 0, 0), "4x4x4 grid, all 256 binary cubes padded low, spacing (1,2,3)", ("quick", "thorough")),
+    ((4, 4, 4, 1, 1, 1, 1, 0, 1), "4x4x4 grid, all 256 binary cubes padded high", ("thorough",)),
+    ((4, 4, 4, 2, 1, 1, 2, 1, 0), "4x4x4 grid, all 6561 cubes with values 0..2, level 1.5", ("thorough",)),
+]
+
+
 def run(ctx, explain=False):
-    ctx.model_check("mc/MC_IsoMesh.tla", MC_CFG % (4, 4, 4, 1, 2, 3, 1, 0, 0),
-                    name="MC_IsoMesh(4x4x4, values 0..1, level 1/2)", timeout=900)
-    recipes = cube_recipes(ctx)
-    recipes += [{"kind": "mc", "gen": "blobs", "seed": ctx.seed * 100003 + i} for i in range(ctx.pick(200, 3000))]
-    traces = pool_map(drive, recipes)
-    ctx.validate("trace/Trace_IsoMesh.tla", traces, timeout=1500, batch=20000)
-    ctx.rule = "TODO"
+    import threading
+    # (T) drive the real code first (forked workers), then run TLC: model checking in a side
+    # thread, trace validation in the main thread
+    light = cube_recipes(ctx)
+    ncube = len(light)
+    light += [{"kind": "mc", "gen": "blobs", "seed": ctx.seed * 100003 + i} for i in range(ctx.pick(200, 3000))]
+    fam, single = sphere_recipes(ctx)
+    light += single
+    heavy = fam + surface_recipes(ctx)
+    heavy_traces = flatten(pool_map(drive, heavy, chunksize=1))
+    light_traces = pool_map(drive, light)
+
+    results = []
+
+    def model_thread():
+        for consts, label, tiers in MC_MODELS:
+            if ctx.tier in tiers:
+                try:
+                    results.append((label, tlc.run("mc/MC_IsoMesh.tla", MC_CFG % consts, timeout=1500,
+                                                   workers=ctx.pick(8, 16), tag="MC_IsoMesh-%d" % len(results))))
+                except Exception as e:          # re-raised in the main thread
+                    results.append((label, e))
+
+    th = threading.Thread(target=model_thread)
+    th.start()
+    try:
+        ctx.validate("trace/Trace_IsoMesh.tla", heavy_traces, timeout=1500, nblocks=max(1, len(heavy_traces)),
+                     name="Trace_IsoMesh(surfaces, spheres)")
+        ctx.validate("trace/Trace_IsoMesh.tla", light_traces, timeout=1500, batch=20000,
+                     name="Trace_IsoMesh(marching_cubes)")
+    finally:
+        th.join()
+    for label, res in results:
+        if isinstance(res, Exception):
+            raise res
+        ctx._account(res, "MC_IsoMesh(%s)" % label)
+        if not res.ok:
+            raise tlc.TLCFailure("design-level model MC_IsoMesh (%s) violated %s / %s\n%s" % (
+                label, res.violated, res.errors, res.stdout[-3000:]))
+    nsurf = sum(1 for t in heavy_traces if t["kind"] == "surf")
+    ctx.exhaustive = not ctx.quick
+    ctx.rule = ("chmpy.mc.marching_cubes on %d single-cube fields (%s), %d random multi-blob integer grids "
+                "(3..9 points per axis, integer spacings 1..4, both directions, 30%% with the exterior high), "
+                "%d integer spheres individually and as one family for the volume clauses; %d surfaces from "
+                "surface.py / Molecule / Crystal wrappers at separations %s A plus their level-residual trends; "
+                "non-trivial = the mesh has at least one face" % (
+                    ncube, "all 255 non-empty corner sign patterns x levels 0.5/1.5/2.5 with seeded value liftings"
+                    if ctx.quick else "every one of the 4^8 fields with values 0..3 x every level 0.5/1.5/2.5 that it reaches",
+                    len(light) - ncube - len(single), len(single), nsurf,
+                    [s / 100.0 for s in ctx.pick([100, 50, 30], [100, 50, 30, 20])]))
+    ctx.explanation = ("model checking: every assignment of the listed values to the 8 free corners, both gradient "
+                       "directions, complete sweep (all reachable states). trace validation: %s; the other "
+                       "inputs are seeded samples" % (
+                           "the single-cube domain (values 0..3, three levels) is enumerated completely" if not ctx.quick
+                           else "the 255 corner sign patterns are enumerated completely, value liftings sampled"))
+    ctx.assumptions = [
+        "the compiled Lewiner kernel (_mc_lewiner*.so) is used as found; it cannot be rebuilt here",
+        "vertices are shipped as round(x*%d) and compared with slack %d units (%.1e): rounding <= 0.5 unit, "
+        "float32 noise measured <= 0.05 unit" % (Q, TOL, TOL / Q),
+        "surface meshes are quantised to 0.02 A (vertices) and atoms to the nearest odd 0.01 A for the exact ray "
+        "casting; atoms of the probed systems are >= 0.5 A from the surfaces",
+        "level-residual clause: the wrappers smooth the mesh, so only a trend is demanded (no step grows by more "
+        "than 1/4, finest <= half the coarsest); measured ratios between consecutive separations are 2.3-4.1",
+        "sphere volume bound 2/R^2 relative (measured 1.50/R^2 for R = 2..12), pi bracketed by 333/106 and 355/113",
+    ]
+    ctx.notes["slack"] = {"Q": Q, "TOL": TOL, "trend_step": "5/4", "trend_total": "1/2", "sphere_bound": "2/R^2"}
 
 
 def replay(ctx, rec):
-    t = drive(rec["record"]["meta"]["recipe"])
-    ctx.validate("trace/Trace_IsoMesh.tla", [t])
+    ts = flatten([drive(rec["record"]["meta"]["recipe"])])
+    ctx.validate("trace/Trace_IsoMesh.tla", ts, nblocks=len(ts))
 
 
 if __name__ == "__main__":
